@@ -4,6 +4,8 @@ import (
 	"context"
 
 	"github.com/gebn/bmc/pkg/ipmi"
+
+	"github.com/google/gopacket"
 )
 
 // C18 (session lifecycle): one session open (succeeding, or failing before anything is sent,
@@ -121,6 +123,53 @@ func VerifC18_Dial() {
 		t.Close()
 		vAssert(vMetric("bmc_connections_open") == 0, "c18-connections-open-gauge-returns-to-zero")
 		vReached("?closed")
+	}
+	vReached("end")
+}
+
+// vNamedCmd is a command whose Operation is shared with other commands of another name
+// (as the DCMI capabilities variants share theirs).
+type vNamedCmd struct {
+	op   *ipmi.Operation
+	name string
+}
+
+func (c *vNamedCmd) Name() string                        { return c.name }
+func (c *vNamedCmd) Operation() *ipmi.Operation          { return c.op }
+func (c *vNamedCmd) RemoteLUN() ipmi.LUN                 { return ipmi.LUNBMC }
+func (c *vNamedCmd) Request() gopacket.SerializableLayer { return gopacket.Payload(nil) }
+func (c *vNamedCmd) Response() gopacket.DecodingLayer    { return nil }
+
+// C18 (per-name accounting across a history): two commands with different names that share
+// one Operation value are sent one after the other, each succeeding or failing (reply lost
+// until the context ends); attempts and failures are counted under each command's own name.
+func VerifC18_TwoNames() {
+	ft := &vFakeTransport{}
+	s := vNewSessionless(ft)
+	op := &ipmi.Operation{Function: ipmi.NetworkFunctionAppReq, Command: 0x01}
+	cmds := []*vNamedCmd{{op: op, name: "first name"}, {op: op, name: "second name"}}
+	fails := [2]bool{vBool(), vBool()}
+	for i, c := range cmds {
+		ctx, cancel := context.WithCancel(context.Background())
+		fail := fails[i]
+		ft.reply = func(attempt int, req []byte) ([]byte, error) {
+			if fail {
+				cancel()
+				return nil, vErrLost
+			}
+			return refSessionless(0x00, refBuildMsg(0x81, 0x07, 0, 0x20, 1, 0, 0x01, []byte{0x00})), nil
+		}
+		_, err := s.SendCommand(ctx, c)
+		vAssert((err != nil) == fail, "c18-command-outcome")
+		cancel()
+	}
+	for i, c := range cmds {
+		vAssert(vMetricL("bmc_command_attempts_total", c.name) == 1, "c18-attempts-under-the-command's-own-name")
+		f := 0
+		if fails[i] {
+			f = 1
+		}
+		vAssert(vMetricL("bmc_command_failures_total", c.name) == f, "c18-failures-under-the-command's-own-name")
 	}
 	vReached("end")
 }
